@@ -1,25 +1,32 @@
 ------------------------------ MODULE MC_C12c ------------------------------
 (* C12, containers: histories of container reads, element additions,        *)
-(* in-place edits of contained elements and container sampling changes.      *)
-(* Abstract state: the version (number of edits) of every contained element. *)
-(* An aggregate view is a function of <<versions, sampling>> only.           *)
+(* in-place edits of contained elements and container sampling changes      *)
+(* (all directions at once, or one direction of a surface / volume          *)
+(* container).  Abstract state: the version (number of edits) of every      *)
+(* contained element and the sample size per direction.  An aggregate view  *)
+(* is a function of <<versions, sampling>> only.                            *)
 EXTENDS Integers, Sequences, TLC, Json
 CONSTANTS MaxElems, Depth
 VARIABLES ver, samp, hist
 vars == <<ver, samp, hist>>
-Init == ver = <<0>> /\ samp = 0 /\ hist = <<>>
+Init == ver = <<0>> /\ samp = <<5, 5, 5>> /\ hist = <<>>
 Step(rec) == hist' = Append(hist, rec)
+NSampling == Len(SelectSeq(hist, LAMBDA st : st.a \in {"c_sample", "c_sample_dir"}))
 CRead(v) == Step([a |-> "c_read", v |-> v]) /\ UNCHANGED <<ver, samp>>
 CAdd == Len(ver) < MaxElems /\ ver' = Append(ver, 0) /\ Step([a |-> "c_add"]) /\ UNCHANGED samp
 CEdit(i) == ver' = [ver EXCEPT ![i] = @ + 1] /\ Step([a |-> "c_edit", i |-> i]) /\ UNCHANGED samp
-CSample == samp' = samp + 1 /\ samp < 2 /\ Step([a |-> "c_sample", n |-> 3 + samp]) /\ UNCHANGED ver
+\* container.sample_size = n
+CSample(n) == NSampling < 2 /\ samp # <<n, n, n>> /\ samp' = <<n, n, n>> /\ Step([a |-> "c_sample", n |-> n]) /\ UNCHANGED ver
+\* container.sample_size_u / _v / _w = n (surface and volume containers)
+CSampleDir(d, n) == NSampling < 2 /\ samp[d] # n /\ samp' = [samp EXCEPT ![d] = n] /\ Step([a |-> "c_sample_dir", d |-> d, n |-> n]) /\ UNCHANGED ver
 Next == /\ Len(hist) < Depth
         /\ \/ \E v \in {"evalpts", "bbox"} : CRead(v)
            \/ CAdd
            \/ \E i \in 1..Len(ver) : CEdit(i)
-           \/ CSample
+           \/ CSample(3 + NSampling)
+           \/ \E d \in 1..3 : CSampleDir(d, 4)
 Spec == Init /\ [][Next]_vars
 \* the aggregate depends only on the abstract state: two histories reaching the same <<ver, samp>> must report the same views
-T_Types == Len(ver) \in 1..MaxElems /\ \A i \in 1..Len(ver) : ver[i] >= 0
+T_Types == Len(ver) \in 1..MaxElems /\ (\A i \in 1..Len(ver) : ver[i] >= 0) /\ \A d \in 1..3 : samp[d] \in 3..5
 Emit == hist # <<>> => PrintT("CASE " \o ToJson([hist |-> hist, ver |-> ver, samp |-> samp]))
 =============================================================================
